@@ -6,6 +6,7 @@ package classifier
 // input space and the corpus-scale edit-script families.
 
 import (
+	"bytes"
 	"fmt"
 	"sort"
 	"strings"
@@ -160,6 +161,13 @@ func vChooseCorpusCase(r *vx.Run, docs []vDoc, families []string) vCase {
 	case "exact":
 		d := docs[r.Choose(len(docs), "doc")]
 		return vCase{"exact:" + d.Key, d.Bytes, d.Key}
+	case "recase":
+		// letter case changed (the tokenizer lower-cases; Normalize keeps the case of a word's first
+		// rune): URL schemes capitalised, URLs upper-cased, all ASCII letters upper-cased, every word
+		// capitalised
+		d := docs[r.Choose(len(docs), "doc")]
+		kind := r.Choose(4, "recase")
+		return vCase{fmt.Sprintf("recase:%s:%s", d.Key, vRecaseNames[kind]), vRecase(d.Bytes, kind), d.Key}
 	case "edit1":
 		d := docs[r.Choose(len(docs), "doc")]
 		pos := r.Choose(24, "pos")
@@ -270,4 +278,42 @@ func vChooseCorpusCase(r *vx.Run, docs []vDoc, families []string) vCase {
 		return vCase{"scenario:" + n, sc[n], ""}
 	}
 	panic("unknown family " + fam)
+}
+
+
+var vRecaseNames = []string{"url-scheme-capitalised", "urls-upper", "all-upper", "words-capitalised"}
+
+// vRecase changes ASCII letter case only (byte offsets and every non-letter byte stay).
+func vRecase(in []byte, kind int) []byte {
+	out := append([]byte(nil), in...)
+	up := func(i int) {
+		if out[i] >= 'a' && out[i] <= 'z' {
+			out[i] -= 'a' - 'A'
+		}
+	}
+	isSp := func(b byte) bool { return b == ' ' || b == '\n' || b == '\t' || b == '\r' }
+	switch kind {
+	case 0, 1:
+		for i := 0; i+7 <= len(out); i++ {
+			if (i == 0 || !(out[i-1] >= 'a' && out[i-1] <= 'z')) && (bytes.HasPrefix(out[i:], []byte("http://")) || bytes.HasPrefix(out[i:], []byte("https://"))) {
+				up(i)
+				if kind == 1 {
+					for j := i; j < len(out) && !isSp(out[j]); j++ {
+						up(j)
+					}
+				}
+			}
+		}
+	case 2:
+		for i := range out {
+			up(i)
+		}
+	case 3:
+		for i := range out {
+			if i == 0 || isSp(out[i-1]) {
+				up(i)
+			}
+		}
+	}
+	return out
 }
